@@ -81,7 +81,7 @@ func writeEvidence(c *Check, res *checkResult) {
 		"pool_items_max":                     a.PoolItemsMax,
 		"corpus":                             c.CStats,
 		"reference": map[string]interface{}{
-			"fresh_process_evaluations": c.Ref.FreshChecked, "order_disagreements": c.Ref.OrderDisagree, "fresh_disagreements": c.Ref.FreshDisagree, "excluded_inputs": c.Ref.ExcludedInputs,
+			"fresh_process_evaluations": c.Ref.FreshChecked, "order_disagreements": c.Ref.OrderDisagree, "fresh_disagreements": c.Ref.FreshDisagree, "excluded_inputs": c.Ref.ExcludedInputs, "process_killing_inputs": c.Ref.Crashers,
 		},
 		"instrumented_vs_shipped_equal": c.EquivN - c.EquivBad,
 		"instrumented_vs_shipped_diff":  c.EquivBad,
